@@ -182,8 +182,11 @@ def run_one(cfg):
     rec = dict(cfg=cfg, calls=calls, probes=[], records=[], crash=None)
     orig_record = IterationHistory.record
     try:
-        bads = BADS(wrapped, None if cfg.get("nox0") else x0.copy(), lb.copy(), ub.copy(), plb.copy(), pub.copy(),
+        caller_x0 = None if cfg.get("nox0") else x0.copy()
+        bads = BADS(wrapped, caller_x0, lb.copy(), ub.copy(), plb.copy(), pub.copy(),
                     non_box_cons=cons, options=dict(opts))
+        if caller_x0 is not None:
+            caller_x0[...] = 0.0     # the caller recycles its buffer (a multi-start driver): the run and its records keep the start they were given
         hist = bads.iteration_history
         rec["hist_keys"] = list(dict.keys(hist))
 
